@@ -278,8 +278,8 @@ Definition r_code (c : cfg) (robj : mstate -> result (pv * mstate)) (save : bool
     end
   else
     do2 (varnames, s4) <- (if vge c [1; 3] then robj s3 else Ok (PTuple [], s3));
-    do2 (freevars, s5) <- (if vge c [2; 0] then robj s4 else Ok (PTuple [], s4));
-    do2 (cellvars, s6) <- (if vge c [2; 0] then robj s5 else Ok (PTuple [], s5));
+    do2 (freevars, s5) <- (if vge c [2; 1] then robj s4 else Ok (PTuple [], s4));
+    do2 (cellvars, s6) <- (if vge c [2; 1] then robj s5 else Ok (PTuple [], s5));
     do2 (filename, s7) <- robj s6;
     do2 (name, s8) <- robj s7;
     do2 (firstlineno, l9) <- (if vge c [1; 5] then w_int c (vge c [2; 3]) true (inp s8) else Ok (-1, inp s8));
